@@ -1489,6 +1489,23 @@ class Exec(object):
                 bound[n] = ast.literal_eval(d)
         if set(bound) != set(names) | ({info.node.args.kwarg.arg} if info.node.args.kwarg else set()):
             raise Unsupported("argument binding for %s" % q)
+        # an Optional value handed to a parameter the callee contract types as str/int: None is outside the contract
+        # (the real callee would fail on it), so the call site owes "is not None"; an empty list / dict literal handed
+        # to a dict-typed parameter is the empty table
+        for n in names:
+            ty = c.args.get(n)
+            v = bound[n]
+            if isinstance(v, VOpt) and isinstance(ty, (TStr, TInt, TBool)):
+                self.safety(st, node, z3.Not(v.isnone), "TypeError", "arg_%s_notnone" % n)
+                bound[n] = v.val
+            elif isinstance(ty, sym.TDict) and isinstance(v, dict) and len(v) > 0:
+                bound[n] = sym.dict_from_concrete(v, ty.vt)
+            elif isinstance(ty, sym.TDict) and isinstance(v, (list, dict)) and len(v) == 0:
+                bound[n] = sym.VDict(STR, ty.vt, lambda k_: VBool(z3.BoolVal(False)),
+                                     lambda k_, _t=ty.vt: fresh(_t, "empty_dict_val"))
+            elif isinstance(ty, sym.TDict) and isinstance(v, VList) and v.conc is not None and len(v.conc) == 0:
+                bound[n] = sym.VDict(STR, ty.vt, lambda k_: VBool(z3.BoolVal(False)),
+                                     lambda k_, _t=ty.vt: fresh(_t, "empty_dict_val"))
         ordered = [bound[n] for n in names] + ([bound[info.node.args.kwarg.arg]] if info.node.args.kwarg else [])
         k = self.call_counter.get(q, 0)
         self.call_counter[q] = k + 1
@@ -2127,9 +2144,12 @@ def _assigned_names(stmts):
             elif isinstance(n, (ast.Assign,)):
                 for t in n.targets:
                     b = t
+                    through_node = False         # x[i].data[k] = v writes a heap field of the node x[i], not x
                     while isinstance(b, (ast.Subscript, ast.Attribute)):
+                        if isinstance(b, ast.Attribute) and b.attr in ("data", "parent", "children"):
+                            through_node = True
                         b = b.value
-                    if isinstance(b, ast.Name) and isinstance(t, ast.Subscript):
+                    if isinstance(b, ast.Name) and isinstance(t, ast.Subscript) and not through_node:
                         names.add(b.id)
             elif isinstance(n, ast.Call) and isinstance(n.func, ast.Attribute) and \
                     n.func.attr in ("append", "extend", "remove", "pop", "insert", "update", "clear", "sort"):
